@@ -11,6 +11,12 @@ INVARIANTS TypeOK NoStuck
 PROPERTIES BMergedMonotone
 CHECK_DEADLOCK FALSE
 """
+LIVE = """SPECIFICATION Spec
+CONSTANTS Docs = {docs} MaxV = 2 MaxDown = 2 AllowPatch = FALSE
+  DurableInbox = {di} SafeMarkDelete = TRUE RetryUsesRootId = TRUE AckIfHeadPresent = FALSE
+PROPERTIES EventuallyDelivered
+CHECK_DEADLOCK FALSE
+"""
 GEN = """SPECIFICATION GSpec
 CONSTANTS Docs = {{1,2}} MaxV = {maxv} MaxDown = {maxdown} AllowPatch = TRUE DurableInbox = FALSE SafeMarkDelete = TRUE RetryUsesRootId = TRUE AckIfHeadPresent = FALSE
 ACTION_CONSTRAINT Export
@@ -39,6 +45,14 @@ def check(run, replay):
         if not st["violated"]:
             raise vlib.Infra("the model no longer refutes acknowledging a stored-but-unmerged head: model drift")
         run.tlc("Replicator.tla", "mc_ok.cfg", workers=8, timeout=1500, cfg_text=MC.format(di="TRUE", smd="TRUE", aih="FALSE"), label="MC_Replicator(durable inbox, safe marker delete)")
+        # liveness under weak fairness of the system actions and of B coming back, without any state constraint: once
+        # writes and outages stop B catches up. Refuted for the protocol as coded (volatile inbox), holds for the repaired one.
+        st = run.tlc("Replicator.tla", "live_pinned.cfg", workers=4, timeout=600, cfg_text=LIVE.format(docs="{1}", di="FALSE"), expect_violation=True,
+                     label="LIVE_Replicator(as coded: EventuallyDelivered must be refuted)")
+        if not st["violated"]:
+            raise vlib.Infra("the liveness property is no longer refuted for the protocol as coded: model drift")
+        run.tlc("Replicator.tla", "live_ok.cfg", workers=8, timeout=1200, cfg_text=LIVE.format(docs="{1,2}", di="TRUE"),
+                label="LIVE_Replicator(durable inbox: EventuallyDelivered under fairness)")
         out = os.path.join(run.tmp, "rep-sched.ndjson")
         run.tlc("Replicator_gen.tla", "gen.cfg", mode="simulate", workers=1, sim="num=%d" % (40 if thorough else 5), extra=["-depth", "80"], timeout=600,
                 env={"VERIF_OUT": out}, cfg_text=GEN.format(maxv=3 if thorough else 2, maxdown=3 if thorough else 2), label="GEN_Replicator(environment schedules)")
@@ -68,5 +82,5 @@ def check(run, replay):
     cov = {"traces_validated_against_impl": n, "samples": samples,
            "rule": "environment schedules (writes on A, B unreachable / restarted / back, schema patch) generated by TLC from Replicator.tla plus directed schedules: the two interleavings TLC found in the model (acknowledged-then-restart, failure recorded during a retried push) forced on the real code with gates at merge.begin / retry.pushed, the receiver dying between storing a pushed head block and loading its links (gate sync.head.stored), two separate outages, and the pubsub-subscription configuration; real libp2p peers on 127.0.0.1, retry intervals 200-500 ms; after the schedule B must become equal to A within 30 s"}
     run.finish("model_checking", viol, cov,
-               ["liveness is judged with a deadline (30 s >= 10 turns of the 2 s retry loop); the safety core NoStuck is model checked",
+               ["on the real code liveness is judged with a deadline (30 s >= 10 turns of the 2 s retry loop); on the specification the safety core NoStuck and the temporal property EventuallyDelivered (weak fairness, no state constraint) are model checked",
                 "outages of A itself are outside the property's quantifier and not generated"])
